@@ -26,7 +26,17 @@ static const size_t REGION_BYTES = 1024;       // >= 32 + 2048 / 8
 
 struct Cfg { uint64_t cap; uint16_t hashes; uint64_t seed; };
 struct Slot { std::unique_ptr<bloom_filter> f; Cfg c; int at; bool fresh; bool restored; };
-struct Region { std::vector<uint8_t> buf; bool live; size_t len; bool from_ser; };
+// caller memory at EVERY alignment: the region starts `off` (0..7) bytes into a larger, 16-byte aligned block; the contract
+// knows nothing about alignment, so all answers must be the same as in the aligned case
+struct Buf {
+  std::vector<uint8_t> store; size_t off = 0;
+  void assign(size_t n, uint8_t v) { store.assign(n + 16, v); }
+  uint8_t* data() { return store.data() + off; }
+  size_t size() const { return store.size() - 16; }
+  uint8_t* begin() { return data(); }
+  uint8_t* end() { return data() + size(); }
+};
+struct Region { Buf buf; bool live; size_t len; bool from_ser; };
 
 // ---- items: typed values, reference canonical bytes, reference index list --------------------------------
 struct Item { int type; long long iv; double dv; std::string sv; };
@@ -298,7 +308,8 @@ int main(int argc, char** argv) {
     { Ev e_("Begin"); e_.i("seg", seg); out(e_); }
     World w; g_w = &w;
     for (int i = 0; i <= NF; i++) { w.s[i].at = 0; w.s[i].fresh = true; w.s[i].restored = false; }
-    for (int i = 0; i <= NM; i++) { w.m[i].buf.assign(REGION_BYTES, 0xA5); w.m[i].live = false; w.m[i].len = 0; w.m[i].from_ser = false; }
+    for (int i = 0; i <= NM; i++) { w.m[i].buf.assign(REGION_BYTES, 0xA5); w.m[i].buf.off = replay ? (size_t)(behidx[(size_t)seg] % 8) : (size_t)g.below(8);
+                                    w.m[i].live = false; w.m[i].len = 0; w.m[i].from_ser = false; }
     long req;
     do { req = g.chance(70) ? SIZES[g.below(17)] : g.range(1, maxbits); } while (req > maxbits);
     w.base.cap = (uint64_t)req; w.base.hashes = (uint16_t)g.range(1, 9); w.base.seed = g.chance(30) ? g.below(1000) : g.next();
@@ -338,7 +349,7 @@ int main(int argc, char** argv) {
       w.s[f].at = m; w.s[f].fresh = true; w.s[f].restored = false;
       w.m[m].live = true; w.m[m].len = 32 + (size_t)(x.get_capacity() / 8); w.m[m].from_ser = false;
       g_region = m;
-      { Ev e_("InitMem"); e_.i("f", f).i("m", m).str("how", acc ? "accuracy" : "size").i("req", acc ? 0 : (long long)q.cap).i("reqHashes", acc ? 0 : q.hashes)
+      { Ev e_("InitMem"); e_.i("align", (long long)w.m[m].buf.off).i("f", f).i("m", m).str("how", acc ? "accuracy" : "size").i("req", acc ? 0 : (long long)q.cap).i("reqHashes", acc ? 0 : q.hashes)
         .h("reqSeedH", q.seed).i("n", n).i("pPm", pPm).i("need", (long long)bloom_filter::get_serialized_size_bytes(x.get_capacity()))
         .i("give", (long long)give).raw("r", proj(x)).il("membits", membits(w, m)); out(e_); }
     };
@@ -376,7 +387,7 @@ int main(int argc, char** argv) {
       } catch (const std::exception&) { thrown = true; }
       g_region = m;
       Ev e(writable ? "WWrap" : "Wrap");
-      e.i("m", m).i("f", f).str("out", thrown ? "throw" : "ok").b("restored", R.from_ser);
+      e.i("m", m).i("f", f).i("align", (long long)R.buf.off).str("out", thrown ? "throw" : "ok").b("restored", R.from_ser);
       if (!thrown) {
         bloom_filter& x = *w.s[f].f;
         w.s[f].c = Cfg{x.get_capacity(), x.get_num_hashes(), x.get_seed()};
@@ -540,6 +551,7 @@ int main(int argc, char** argv) {
       w.force = true;
       for (int state = 0; state < 3; state++) for (int kind = 0; kind < 2; kind++) for (int path = 0; path < 4; path++) {
         for (int f = 1; f <= NF; f++) drop(w, f);
+        for (int i = 1; i <= NM; i++) { w.m[i].buf.off = (size_t)((state * 8 + kind * 4 + path + i) % 8); w.m[i].live = false; }   // no view is alive here
         std::vector<Item> pre; for (int k = 0; k < (state == 0 ? 0 : state == 1 ? 1 : 3); k++) pre.push_back(real_item());
         auto bring = [&](int f) { for (const Item& it : pre) ev_item(f, UPD, it); if (state == 2) ev_invreset(f, false); };
         make_new(1); bring(1);                                                   // the original O
